@@ -41,6 +41,9 @@ ForeignAttrs == {
   [d |-> <<"go", "struct">>, paren |-> TRUE, args |-> <<[q |-> FALSE, id |-> 0, s |-> "module"], [q |-> TRUE, id |-> 5, s |-> ""]>>],
   [d |-> <<"cs", "type">>, paren |-> TRUE, args |-> <<[q |-> TRUE, id |-> 4, s |-> ""], [q |-> TRUE, id |-> 3, s |-> ""], [q |-> FALSE, id |-> 0, s |-> "tag"]>>],
   [d |-> <<"rust", "int32">>, paren |-> TRUE, args |-> <<>>],
+  \* foreign directives whose last segment is spelled like one of the compiler's own, and twice the same argument in a row
+  [d |-> <<"cs", "deprecated">>, paren |-> TRUE, args |-> <<[q |-> TRUE, id |-> 2, s |-> ""], [q |-> TRUE, id |-> 2, s |-> ""]>>],
+  [d |-> <<"rust", "allow">>, paren |-> TRUE, args |-> <<[q |-> FALSE, id |-> 0, s |-> "dead_code"], [q |-> FALSE, id |-> 0, s |-> "dead_code"], [q |-> FALSE, id |-> 0, s |-> "x"]>>],
   [d |-> <<"a", "b">>, paren |-> TRUE, args |-> <<[q |-> TRUE, id |-> 6, s |-> ""], [q |-> TRUE, id |-> 7, s |-> ""]>>],
   [d |-> <<"p", "q">>, paren |-> TRUE, args |-> <<[q |-> TRUE, id |-> 8, s |-> ""], [q |-> TRUE, id |-> 9, s |-> ""], [q |-> TRUE, id |-> 10, s |-> ""]>>]
 }
